@@ -1,59 +1,146 @@
 import PytezosModel.Proofs.InterpRefine
 import PytezosModel.Proofs.InterpGuard
+import PytezosModel.Proofs.InterpProgress
 /-! C01 — the interpreter computes the Michelson result, or fails with the FAILWITH value, that the
 reference semantics prescribes.
 
 `Impl.exec` mirrors the `execute` methods and the protected-prefix `MichelsonStack` of pytezos (tied to the
 code by the correspondence run); `Spec.eval` is the big-step reference semantics of the modelled core over a
-plain list (values carry their types; ill-typed configurations and running out of fuel are `err`).
+plain list (values carry their types; outcomes: a stack, a FAILWITH value, a runtime failure `rtfail`, out of fuel
+`oof`, `stuck` for ill-typed configurations, and — guard mode only — `offguard`).
 The modelled core is exactly the constructors of `Interp.Instr`.
 
 FULL STATEMENT (properties.jsonl): for every well-typed program … the interpreter ends with exactly the stack,
-or FAILWITH value, of the reference semantics.  What is proved is the full statement for every execution in
-which MAP is never applied to an *empty* list/map with a body that changes the element type
-(`Spec.eval (guard := true)`): there pytezos keeps the old element type on the (empty) result — its
-`MapInstruction` cannot know the new one — and a later EXEC/APPLY/CONS/COMPARE may fail its dynamic type
-assertion.  That case is a recorded open finding; `map_empty_counterexample` exhibits it on the mirror. -/
+or FAILWITH value, of the reference semantics.
+
+* `welltyped_run_eq_reference` is that statement, literally about WELL-TYPED programs: the program is accepted by the
+  typing rules (`Typing.typeInstr`, with well-formed set / map literals `Typing.literalsOk`), every input value is a
+  well-typed value (`WellFormed`: deep typing + strictly sorted sets / maps); then `Impl.run` returns exactly the
+  outcome of the reference semantics — the stack, the FAILWITH value, the runtime failure (mutez overflow, shift by
+  more than 256 bits), and it needs more fuel exactly when the reference does.  The only other hypothesis is the
+  documented guard: MAP is never applied to an *empty* list / map with a body that changes the element type (the
+  guarded reference run does not answer `offguard`).  There pytezos keeps the old element type on the (empty) result —
+  its `MapInstruction` cannot know the new one — and a later EXEC/APPLY/CONS/COMPARE may fail its dynamic type
+  assertion: a recorded open finding, exhibited on the mirror by `map_empty_counterexample`.
+* It rests on `progress` (a well-typed program on well-typed values is never stuck: the progress half of type
+  soundness; the preservation half is C02) and on `exec_refines_spec` (refinement for every execution that is not stuck
+  and inside the guard, any protected prefix). -/
 namespace C01
 open Interp
 
 /-- **refinement, any protected prefix** (the form used inside DIP / DIG / DUG / DUP n):
 for every program, fuel bound, environment, visible stack `st` and protected prefix `pre`, if the reference
-semantics yields a stack or a FAILWITH value, the pytezos machine started on `pre ++ st` with `pre` protected
-yields the same stack under the same prefix, resp. the same FAILWITH value. -/
+semantics is not stuck and stays inside the guard, the pytezos machine started on `pre ++ st` with `pre` protected
+has the reference outcome: the same stack under the same prefix, the same FAILWITH value, a runtime failure (mutez
+overflow, shift by more than 256 bits) exactly where the reference fails, and it exhausts the fuel bound exactly when
+the reference does. -/
 theorem exec_refines_spec (env : Env) (fuel : Nat) (i : Instr) (pre st : List Val)
-    (h : Spec.eval true env fuel i st ≠ .err) :
+    (h : Spec.eval true env fuel i st ≠ .stuck) (hg : Spec.eval true env fuel i st ≠ .offguard) :
     Impl.exec env fuel i (stk pre st) = (Spec.eval true env fuel i st).map' (stk pre) :=
-  Interp.exec_refines_spec env fuel i pre st h
+  Interp.exec_refines_spec env fuel i pre st h hg
+
+/-- a REPL / contract run on the stack `st`: the guarded reference outcome, whatever it is -/
+theorem run_eq_guarded (env : Env) (fuel : Nat) (i : Instr) (st : List Val)
+    (h : Spec.eval true env fuel i st ≠ .stuck) (hg : Spec.eval true env fuel i st ≠ .offguard) :
+    Impl.run env fuel i st = Spec.eval true env fuel i st := by
+  have := Interp.exec_refines_spec env fuel i [] st h hg
+  simp only [stk, List.nil_append, List.length_nil] at this
+  rw [Impl.run, this]
+  cases Spec.eval true env fuel i st <;> simp [Res.map', Res.bind, stk]
 
 /-- a REPL / contract run: final stack -/
 theorem run_ok (env : Env) (fuel : Nat) (i : Instr) (st st' : List Val)
     (h : Spec.eval true env fuel i st = .ok st') : Impl.run env fuel i st = .ok st' := by
-  have := Interp.exec_refines_spec env fuel i [] st (by rw [h]; intro e; cases e)
-  simp only [stk, List.nil_append, List.length_nil] at this
-  simp [Impl.run, this, h, Res.map', Res.bind, stk]
+  rw [run_eq_guarded env fuel i st (by rw [h]; intro e; cases e) (by rw [h]; intro e; cases e), h]
 
 /-- a REPL / contract run: FAILWITH value -/
 theorem run_failwith (env : Env) (fuel : Nat) (i : Instr) (st : List Val) (v : Val)
     (h : Spec.eval true env fuel i st = .failed v) : Impl.run env fuel i st = .failed v := by
-  have := Interp.exec_refines_spec env fuel i [] st (by rw [h]; intro e; cases e)
-  simp only [stk, List.nil_append, List.length_nil] at this
-  simp [Impl.run, this, h, Res.map', Res.bind]
+  rw [run_eq_guarded env fuel i st (by rw [h]; intro e; cases e) (by rw [h]; intro e; cases e), h]
 
-/-- the guard only removes behaviours: a guarded reference execution is a reference execution -/
+/-- a REPL / contract run: runtime failure (mutez overflow / underflow, shift by more than 256 bits) -/
+theorem run_rtfail (env : Env) (fuel : Nat) (i : Instr) (st : List Val)
+    (h : Spec.eval true env fuel i st = .rtfail) : Impl.run env fuel i st = .rtfail := by
+  rw [run_eq_guarded env fuel i st (by rw [h]; intro e; cases e) (by rw [h]; intro e; cases e), h]
+
+/-- the guard only removes behaviours: a reference execution that stays inside the guard is a reference execution -/
 theorem guarded_is_reference (env : Env) (fuel : Nat) (i : Instr) (st : List Val)
-    (h : Spec.eval true env fuel i st ≠ .err) : Spec.eval false env fuel i st = Spec.eval true env fuel i st :=
-  Interp.eval_guard env fuel i st h
+    (hg : Spec.eval true env fuel i st ≠ .offguard) : Spec.eval false env fuel i st = Spec.eval true env fuel i st :=
+  Interp.eval_guard env fuel i st hg
 
 /-- corollary in terms of the unguarded reference semantics -/
 theorem run_eq_reference (env : Env) (fuel : Nat) (i : Instr) (st : List Val)
-    (h : Spec.eval true env fuel i st ≠ .err) :
+    (h : Spec.eval true env fuel i st ≠ .stuck) (hg : Spec.eval true env fuel i st ≠ .offguard) :
     Impl.run env fuel i st = Spec.eval false env fuel i st := by
-  rw [guarded_is_reference env fuel i st h]
-  cases hq : Spec.eval true env fuel i st with
-  | err => exact absurd hq h
-  | ok st' => exact run_ok env fuel i st st' hq
-  | failed v => exact run_failwith env fuel i st v hq
+  rw [guarded_is_reference env fuel i st hg]
+  exact run_eq_guarded env fuel i st h hg
+
+/-- **progress** (the half of type soundness C02 does not prove): a well-typed program — accepted by the typing rules,
+all its set / map literals well-formed — run on well-typed values is never stuck: for every environment and fuel bound
+the reference semantics yields a stack, a FAILWITH value, a runtime failure, or runs out of fuel. -/
+theorem progress (env : Env) (fuel : Nat) (i : Instr) (st : List Val) (tr : TRes)
+    (hty : Typing.typeInstr false i (st.map typeOf) = some tr) (hwf : ∀ v ∈ st, WellFormed v)
+    (hlit : Typing.literalsOk i = true) : Spec.eval false env fuel i st ≠ .stuck :=
+  Interp.progress env fuel i st tr hty hwf hlit
+
+/-- the four outcomes of a well-typed program; a returned stack consists of well-typed values of the static types -/
+theorem welltyped_outcomes (env : Env) (fuel : Nat) (i : Instr) (st : List Val) (tr : TRes)
+    (hty : Typing.typeInstr false i (st.map typeOf) = some tr) (hwf : ∀ v ∈ st, WellFormed v)
+    (hlit : Typing.literalsOk i = true) :
+    (∃ st', Spec.eval false env fuel i st = .ok st' ∧ (∀ v ∈ st', WellFormed v) ∧ tr = .ok (st'.map typeOf)) ∨
+    (∃ v, Spec.eval false env fuel i st = .failed v) ∨
+    Spec.eval false env fuel i st = .rtfail ∨ Spec.eval false env fuel i st = .oof := by
+  have h1 := Interp.progress env fuel i st tr hty hwf hlit
+  have h2 := Interp.eval_false_ne_offguard env fuel i st tr hty hwf hlit
+  cases hq : Spec.eval false env fuel i st with
+  | ok st' =>
+    refine Or.inl ⟨st', rfl, Interp.wellFormed_preserved env fuel i st st' tr hty hwf hlit hq, ?_⟩
+    exact ((sound_all env fuel).1 i st st' tr (fun v hv => (hwf v hv).1) hq hty).2
+  | failed v => exact Or.inr (Or.inl ⟨v, rfl⟩)
+  | rtfail => exact Or.inr (Or.inr (Or.inl rfl))
+  | oof => exact Or.inr (Or.inr (Or.inr rfl))
+  | stuck => exact absurd hq h1
+  | offguard => exact absurd hq h2
+
+/-- **C01 for well-typed programs.**  For every program accepted by the typing rules (with well-formed literals), every
+environment, fuel bound and input stack of well-typed values: if the run stays inside the documented guard (MAP is not
+applied to an empty collection with a type-changing body), the pytezos machine returns exactly the outcome of the
+reference semantics.  No hypothesis about the reference run being defined is left: well-typedness gives it. -/
+theorem welltyped_run_eq_reference (env : Env) (fuel : Nat) (i : Instr) (st : List Val) (tr : TRes)
+    (hty : Typing.typeInstr false i (st.map typeOf) = some tr) (hwf : ∀ v ∈ st, WellFormed v)
+    (hlit : Typing.literalsOk i = true)
+    (hguard : Spec.eval true env fuel i st ≠ .offguard) :
+    Impl.run env fuel i st = Spec.eval false env fuel i st := by
+  have hp := Interp.progress env fuel i st tr hty hwf hlit
+  rw [guarded_is_reference env fuel i st hguard] at hp
+  exact run_eq_reference env fuel i st hp hguard
+
+/-- the same, spelled out for a run that terminates within the fuel bound: the machine ends with exactly the stack,
+FAILWITH value or runtime failure of the reference semantics, and these are the only possibilities; a final stack
+consists of well-typed values of the statically assigned types. -/
+theorem welltyped_terminating_run (env : Env) (fuel : Nat) (i : Instr) (st : List Val) (tr : TRes)
+    (hty : Typing.typeInstr false i (st.map typeOf) = some tr) (hwf : ∀ v ∈ st, WellFormed v)
+    (hlit : Typing.literalsOk i = true)
+    (hterm : Spec.eval false env fuel i st ≠ .oof)
+    (hguard : Spec.eval true env fuel i st ≠ .offguard) :
+    (∃ st', Spec.eval false env fuel i st = .ok st' ∧ Impl.run env fuel i st = .ok st' ∧
+        (∀ v ∈ st', WellFormed v) ∧ tr = .ok (st'.map typeOf)) ∨
+    (∃ v, Spec.eval false env fuel i st = .failed v ∧ Impl.run env fuel i st = .failed v) ∨
+    (Spec.eval false env fuel i st = .rtfail ∧ Impl.run env fuel i st = .rtfail) := by
+  have hrun := welltyped_run_eq_reference env fuel i st tr hty hwf hlit hguard
+  rcases welltyped_outcomes env fuel i st tr hty hwf hlit with ⟨st', h, hw, ht⟩ | ⟨v, h⟩ | h | h
+  · exact Or.inl ⟨st', h, by rw [hrun, h], hw, ht⟩
+  · exact Or.inr (Or.inl ⟨v, h, by rw [hrun, h]⟩)
+  · exact Or.inr (Or.inr ⟨h, by rw [hrun, h]⟩)
+  · exact absurd h hterm
+
+/-- a contract / REPL run starts on the empty stack: there the only hypotheses are the static ones and the guard -/
+theorem welltyped_program_run (env : Env) (fuel : Nat) (i : Instr) (tr : TRes)
+    (hty : Typing.typeInstr false i [] = some tr) (hlit : Typing.literalsOk i = true)
+    (hguard : Spec.eval true env fuel i [] ≠ .offguard) :
+    Impl.run env fuel i [] = Spec.eval false env fuel i [] ∧ Spec.eval false env fuel i [] ≠ .stuck :=
+  ⟨welltyped_run_eq_reference env fuel i [] tr hty (by simp) hlit hguard,
+   progress env fuel i [] tr hty (by simp) hlit⟩
 
 /-- the stack discipline alone: DIP n / DIG n / DUG n / DUP n through `protect`/`restore` are `take`/`drop`
 on the visible stack, for every depth, stack and prefix -/
@@ -62,7 +149,7 @@ theorem dip_n_spec (env : Env) (fuel n : Nat) (body : Instr) (pre st st' : List 
     Impl.exec env (fuel + 1) (.DIPN n body) (stk pre st) = .ok (stk pre (st.take n ++ st')) := by
   have hs : Spec.eval true env (fuel + 1) (.DIPN n body) st = .ok (st.take n ++ st') := by
     simp [Spec.eval, hn, h]
-  rw [Interp.exec_refines_spec env (fuel + 1) (.DIPN n body) pre st (by rw [hs]; intro e; cases e), hs]
+  rw [Interp.exec_refines_spec env (fuel + 1) (.DIPN n body) pre st (by rw [hs]; intro e; cases e) (by rw [hs]; intro e; cases e), hs]
   rfl
 
 def env0 : Env := { amount := 0, balance := 0, sender := [], source := [], self := [], now := 0, level := 1, chainId := [] }
@@ -74,7 +161,7 @@ theorem map_empty_counterexample :
       = .ok [.list .int []] ∧
     Impl.run env0 5 (.seq [.NIL .timestamp, .MAP (.seq [.DROP, .PUSH .int (.num .int 0)])]) []
       = .ok [.list .timestamp []] ∧
-    Spec.eval true env0 5 (.seq [.NIL .timestamp, .MAP (.seq [.DROP, .PUSH .int (.num .int 0)])]) [] = .err := by
+    Spec.eval true env0 5 (.seq [.NIL .timestamp, .MAP (.seq [.DROP, .PUSH .int (.num .int 0)])]) [] = .offguard := by
   refine ⟨?_, ?_, ?_⟩ <;>
     simp [Spec.eval, Spec.evalSeq, Spec.evalMap, Spec.step, Spec.listOf, Spec.mapOutTy, Typing.typeInstr, Typing.typeSeq,
       Typing.step, Typing.checkVal, Impl.run, Impl.exec, Impl.execSeq, Impl.step, Impl.mapLoop, Stack.push, Stack.pop1,
@@ -139,7 +226,7 @@ example : Impl.run env0 20
     = .ok [.set .nat [.num .nat 2, .num .nat 5]] :=
   run_ok env0 20 _ [] _ (by rfl)
 -- an ill-formed (unsorted) set is outside the reference rules, and its literal is not a well-formed literal
-example : Spec.eval true env0 20 (.seq [.PUSH (.set .int) (.set .int [.num .int 3, .num .int 1]), .PUSH .int (.num .int 1), .MEM]) [] = .err := by rfl
+example : Spec.eval true env0 20 (.seq [.PUSH (.set .int) (.set .int [.num .int 3, .num .int 1]), .PUSH .int (.num .int 1), .MEM]) [] = .stuck := by rfl
 example : Typing.literalsOk (.PUSH (.set .int) (.set .int [.num .int 3, .num .int 1])) = false := by rfl
 
 -- hashing: for EVERY choice of the five hash functions the machine pushes the function's value (here an arbitrary `h`)
@@ -149,5 +236,31 @@ example (h : Hashes) (b : List Nat) :
   run_ok _ 20 _ [] _ (by simp [Spec.eval, Spec.evalSeq, Spec.step, Spec.stepMore, Res.bind])
 example : Spec.eval true { env0 with totalVotingPower := 7, minBlockTime := 15 } 20
     (.seq [.TOTAL_VOTING_POWER, .CAST .nat, .RENAME, .MIN_BLOCK_TIME]) [] = .ok [.num .nat 15, .num .nat 7] := by rfl
+
+-- non-vacuity of `welltyped_run_eq_reference` / `progress`: a well-typed program with a loop, a lambda call and a sorted
+-- set literal, run on a well-typed input stack; the hypotheses hold and the run is inside the guard
+def progW : Instr :=
+  .seq [.PUSH (.set .int) set13, .SWAP, .DUP, .DIP (.seq [.MEM]), .PUSH .int (.num .int 0), .COMPARE, .LT,
+        .LOOP (.seq [.PUSH .bool (.bool false)]), .LAMBDA .bool .bool (.seq [.NOT]), .SWAP, .EXEC]
+example : Typing.typeInstr false progW ([Val.num .int 3].map typeOf) = some (.ok [.bool]) := by rfl
+example : Typing.literalsOk progW = true := by rfl
+example : ∀ v ∈ [Val.num .int 3], WellFormed v := by simp [WellFormed, Typing.litOk]
+example : Spec.eval true env0 30 progW [.num .int 3] = .ok [.bool false] := by rfl
+example : Impl.run env0 30 progW [.num .int 3] = .ok [.bool false] := by
+  rw [welltyped_run_eq_reference env0 30 progW [.num .int 3] (.ok [.bool]) (by rfl) (by simp [WellFormed, Typing.litOk]) (by rfl)
+    (by rw [show Spec.eval true env0 30 progW [.num .int 3] = .ok [.bool false] from rfl]; intro h; cases h)]
+  rfl
+-- a runtime failure is an outcome of a well-typed program, not a stuck state — and the machine has it too
+example : Typing.typeInstr false (.seq [.PUSH .mutez (.num .mutez (2 ^ 62)), .DUP, .ADD]) [] = some (.ok [.mutez]) := by rfl
+example : Spec.eval false env0 9 (.seq [.PUSH .mutez (.num .mutez (2 ^ 62)), .DUP, .ADD]) [] = .rtfail := by rfl
+example : Impl.run env0 9 (.seq [.PUSH .mutez (.num .mutez (2 ^ 62)), .DUP, .ADD]) [] = .rtfail :=
+  run_rtfail env0 9 _ [] (by rfl)
+example : Spec.eval false env0 9 (.seq [.PUSH .nat (.num .nat 257), .PUSH .nat (.num .nat 1), .LSL]) [] = .rtfail := by rfl
+-- stuck is what happens to ill-typed configurations only: ADD on a string, MEM on an unsorted set
+example : Spec.eval false env0 9 (.seq [.PUSH .string (.str [97]), .PUSH .int (.num .int 1), .ADD]) [] = .stuck := by rfl
+example : Typing.typeInstr false (.seq [.PUSH .string (.str [97]), .PUSH .int (.num .int 1), .ADD]) [] = none := by rfl
+-- out of fuel: the machine and the reference exhaust the same bound
+example : Spec.eval false env0 3 (.seq [.PUSH .bool (.bool true), .LOOP (.seq [.PUSH .bool (.bool true)])]) [] = .oof := by rfl
+example : Impl.run env0 3 (.seq [.PUSH .bool (.bool true), .LOOP (.seq [.PUSH .bool (.bool true)])]) [] = .oof := by rfl
 
 end C01
